@@ -1,5 +1,5 @@
 (** C18 - a recorded script replays to the same input events. *)
-From Coq Require Import ZArith List Bool.
+From Coq Require Import ZArith List Bool Lia.
 From VD Require Import Base.Bytes Base.Text Gen.Tables Model.Shlex Model.Command Model.Recorder Model.Keys Model.Replay.
 From VD Require Import Proofs.CommandP Proofs.ReplayP Proofs.LexP Proofs.RoundtripP.
 Import ListNotations.
@@ -49,4 +49,4 @@ Example C18_roundtrip_nonvacuous :
   Replay.roundtrip [IKey 5 1 35; IKey 9 0 39; IPtr 20 5 3 4; IKey 20 1 65293] =
   Some [RPause (fmt4 5); RKey true 35; RPause (fmt4 4); RKey false 39; RPause (fmt4 11); RMove 3 4; RClick 1; RClick 3;
         RPause (fmt4 0); RKey true 65293].
-Proof. split; [cbn; repeat split; try lia; discriminate|vm_compute; reflexivity]. Qed.
+Proof. split; [cbn [wf_session]; repeat split; try lia; try discriminate|vm_compute; reflexivity]. Qed.
